@@ -1136,6 +1136,9 @@ func oracles08(r *Run, t *c08Tree, flat []flatRes, bo buildOut) {
 				}
 			}
 			for p := range lo {
+				if base := strings.TrimSuffix(strings.TrimSuffix(p, "[]"), "{}"); base != p && strings.HasPrefix(li[base], "!!null") {
+					continue // a null promoted to an empty sequence / mapping by a field spec passing through it
+				}
 				if _, ok := li[p]; !ok && !labelish(p) {
 					report("exact_locations", "C08/frame",
 						fmt.Sprintf("%s %s: new value at undocumented location %s", kind, x.fr.Res.Name, p))
